@@ -55,6 +55,8 @@ def build_case(cs, profile):
         kw.update(max_s=25, max_p=14, max_l=6, min_s=12, max_list=4)
         kw['shape'] = rng.choice(['dense', 'lowerq', 'tight_lecturer', 'no_ties', 'dense'])
     spec = sp.make_spec(rng, **kw)
+    if profile.get('size_cost_cross'):
+        spec = sp.make_size_cost_cross_spec(rng)
     if profile.get('big_quota'):
         big = 99999999999999999
         k = rng.randrange(spec['nl'])
@@ -72,6 +74,8 @@ def build_case(cs, profile):
     if spec['na'] == 2 and okw.get('twopl') is None and rng.random() < 0.25:
         okw['twopl'] = False      # HA-style one-sided run
     opts = sp.make_opts(rng, spec, **okw)
+    if profile.get('force_extras') and opts['crits']:
+        opts['crits'][0][2] = list(profile['force_extras'])
     return rng, spec, opts
 
 
